@@ -518,6 +518,9 @@ int SimulateMsp430::put_data(
     return 0;
   }
 
+  // Constants (R3, R2 with As=2/3) and immediates have no address to write to.
+  if (ea == -1) { return 0; }
+
   if (bw == BW_WORD)
   {
     ram_write16(ea, data);
